@@ -51,4 +51,11 @@ def takeSortedByRows {β} (nums : List Nat) (vals : List β) : List β := (sortP
 def scatterTrue (n : Nat) (nums : List Nat) : List Bool :=
   nums.foldl (fun acc r => acc.set r true) (List.replicate n false)
 
+/-- the distinct values of a column, in order of first appearance -/
+def distinct : List Nat → List Nat
+  | [] => []
+  | x :: xs => x :: (distinct xs).filter (fun y => y != x)
+/-- `pc.value_counts(col)`: each distinct value with the number of times it occurs -/
+def valueCounts (xs : List Nat) : List (Nat × Nat) := (distinct xs).map (fun v => (v, xs.count v))
+
 end LK.ArrowOps
